@@ -218,6 +218,30 @@ def check_read_through(ctx, eff, rep, region, rule="H3", whole_only=False):
                     probs.append("%s looks up key %s but never fills it: a miss during another call's fill gives a different answer" % (g.name, k))
             for nd, p in whole:
                 probs.append("%s uses the dict as a whole (%s): a half-filled dict is observable" % (g.name, unparse(p)[:40] if p is not None else nd.id))
+            # a key is stored once per miss: a provisional value stored first (a placeholder, a default) and overwritten later on
+            # the same path is visible to a concurrent look-up in between
+            if len(stores) > 1 and not whole_only:
+                from sa.flow import Forward
+                store_nodes = {id(p_): k for k, p_ in stores}
+                twice = []
+
+                class Once(Forward):
+                    def join(self, a, b):
+                        return a | b
+
+                    def simple(self, st, state):
+                        node_ = st.value if hasattr(st, "for_node") else st
+                        for x in ast.walk(node_):
+                            k_ = store_nodes.get(id(x))
+                            if k_ is not None:
+                                if k_ in state:
+                                    twice.append((k_, x))
+                                state = state | {k_}
+                        return state
+                Once(g.node).run(frozenset())
+                for k_, x in twice[:1]:
+                    probs.append("%s stores key %s twice on one path (line %d is the second store): the first, provisional value can be "
+                                 "read by another thread before it is replaced" % (g.name, k_, x.lineno))
             rep.ob(rule, not probs, uses[0][0], g, construct="uses of the run-time filled dict %s in %s" % (sorted(nm for _m, nm in names), g.name),
                    how=("no whole-dict observation (length, emptiness, iteration): what earlier calls stored is visible only through key look-ups"
                         if whole_only else
